@@ -5,7 +5,7 @@
 //! legitimately be removed if they are plain stores).
 
 use std::alloc::{GlobalAlloc, Layout, System};
-use std::sync::atomic::{AtomicBool, AtomicU64, AtomicUsize, Ordering};
+use std::sync::atomic::{AtomicBool, AtomicUsize, Ordering};
 
 pub const MAX_NEEDLES: usize = 16;
 pub const MAX_LEN: usize = 160;
@@ -13,8 +13,8 @@ pub const MAX_LEN: usize = 160;
 static ARMED: AtomicBool = AtomicBool::new(false);
 static mut NEEDLES: [[u8; MAX_LEN]; MAX_NEEDLES] = [[0u8; MAX_LEN]; MAX_NEEDLES];
 static NEEDLE_LEN: [AtomicUsize; MAX_NEEDLES] = [const { AtomicUsize::new(0) }; MAX_NEEDLES];
-static HITS: [AtomicU64; MAX_NEEDLES] = [const { AtomicU64::new(0) }; MAX_NEEDLES];
-static BLOCKS: AtomicU64 = AtomicU64::new(0);
+static HITS: [AtomicUsize; MAX_NEEDLES] = [const { AtomicUsize::new(0) }; MAX_NEEDLES];
+static BLOCKS: AtomicUsize = AtomicUsize::new(0);
 
 pub struct Watch;
 
@@ -79,5 +79,5 @@ pub fn watch<F: FnOnce()>(needles: &[Vec<u8>], f: F) -> (Vec<u64>, u64) {
     ARMED.store(true, Ordering::SeqCst);
     f();
     ARMED.store(false, Ordering::SeqCst);
-    ((0..k).map(|i| HITS[i].load(Ordering::SeqCst)).collect(), BLOCKS.load(Ordering::SeqCst))
+    ((0..k).map(|i| HITS[i].load(Ordering::SeqCst) as u64).collect(), BLOCKS.load(Ordering::SeqCst) as u64)
 }
